@@ -632,6 +632,9 @@ func runCaseAttempt(g *dag.Graph, ops []op, seed uint64, attempt int) {
 			if tr.stored[o.N] {
 				expTags[o.T] = o.N
 				expDig[o.N] = true
+				if g.Nodes[o.N].IsManifest() {
+					expKnown[o.N] = true // Store.Tag indexes a manifest before naming it in index.json
+				}
 			} else {
 				expRes = "notfound"
 			}
@@ -689,6 +692,22 @@ func runCaseAttempt(g *dag.Graph, ops []op, seed uint64, attempt int) {
 					cascade = gone
 					if len(gone) > 1 {
 						nontrivial = true
+					}
+				}
+				// a surviving manifest that lost its last predecessor stays listed by its digest
+				for _, n := range g.Nodes {
+					if !tr.known[n.ID] || gone[n.ID] || !n.IsManifest() {
+						continue
+					}
+					ps := tr.preds(n.ID)
+					all := len(ps) > 0
+					for _, p := range ps {
+						if !gone[p] {
+							all = false
+						}
+					}
+					if all {
+						expDig[n.ID] = true
 					}
 				}
 				for k := range gone {
